@@ -557,19 +557,39 @@ class C01(Property):
         cwl_definition = cwl_utils.parser.load_document_by_uri(doc)
         cwl_inputs = cwl_utils.parser.utils.load_inputfile_by_uri(version=cwl_definition.cwlVersion, path=job,
                                                                    loadingOptions=cwl_definition.loadingOptions)
-        # the scheduler, the job pipeline and the JavaScript engine take part in a CWL run: a stall is charged to scatter/gather only
-        # when it is reproducible (three runs out of three); one-off stalls are counted and noted
+        # the scheduler, the job pipeline and the JavaScript engine (node, 20 s time-out in cwl_utils) take part in a CWL run: on a loaded
+        # machine an expression can time out, the job FAILS and the executor may never finish. A stall or failure is charged to
+        # scatter/gather only if a ScatterStep/GatherStep itself failed, or nothing failed and the stall is reproducible (3 of 3).
+        verdict = None
         for attempt in range(3):
             wf = CWLTranslator(context=rig.context, name=f"c01cwl-{rig.n}-{attempt}", output_directory=wdir, cwl_definition=cwl_definition,
                                cwl_inputs=cwl_inputs, cwl_inputs_path=job, workflow_config=WorkflowConfig("w", cfg)).translate()
             await wf.save(rig.context.database)
-            hung, outputs, live = await sd.run_workflow(wf, StreamFlowExecutor(wf).run())
-            if not hung:
+            err, hung, outputs, live = None, False, None, []
+            try:
+                hung, outputs, live = await sd.run_workflow(wf, StreamFlowExecutor(wf).run())
+            except Exception as e:  # noqa: BLE001
+                err = e
+            failed = [st for st in wf.steps.values() if st.status == Status.FAILED]
+            if not hung and err is None:
+                verdict = "ok"
                 break
+            if failed and not any(isinstance(st, (ScatterStep, GatherStep)) for st in failed):
+                verdict = "env"
+                ctx.count("cwl-job-failure(not charged)")
+                ctx.notes.append(f"CWL run attempt {attempt + 1}: job step(s) {[st.name for st in failed][:4]} FAILED outside scatter/gather "
+                                 f"({'stall' if hung else repr(err)[:120]}) on {case}")
+                continue
+            if err is not None:
+                raise err
+            verdict = "hang"
             ctx.count("cwl-stall")
             ctx.notes.append(f"CWL run stalled (attempt {attempt + 1}) on {case}: steps still running {live}")
-        if hung:
-            raise sd.StepHang(f"CWL scatter workflow made no progress for 180 s; steps still running: {live}")
+        if verdict == "env":
+            ctx.extra["cwl_cases_not_evaluated"] = ctx.extra.get("cwl_cases_not_evaluated", 0) + 1
+            return
+        if verdict == "hang":
+            raise sd.StepHang(f"CWL scatter workflow made no progress for 180 s in 3 runs out of 3 (no failed step); steps still running: {live}")
 
         def f2(v):
             return [f2(x) for x in v] if isinstance(v, list) else v * 2 + 1
